@@ -2243,7 +2243,7 @@ class SparseVector:
                     raise ZeroDivisionError('division by zero')
         elif size == 1 and other_size: 
             if 0 in dct: 
-                if other_size != other_size: raise ZeroDivisionError('division by zero')
+                if len(other_dct) != other_size: raise ZeroDivisionError('division by zero')
                 value = dct.pop(0)
                 for i, j in other_dct.items(): dct[i] = value / j
             self.size = other_size
